@@ -70,10 +70,19 @@ def run(job):
         c = copy.deepcopy(tstep)
         c.pop("x", None)
         c.pop("plan", None)
-        ctx.exec_step(c)
+        try:
+            ctx.exec_step(c)
+        except Violation as v:
+            return {"status": "violation", "violation": {"property": v.prop, "invariant": v.inv, "detail": v.detail,
+                                                         "step": c["id"]}}
         return {"status": "ok", "nalloc": ctx._last_nalloc, "ncb": ctx._last_ncb_all, "out": ctx._last_outcome}
 
     tw = _fork_run(twin)
+    if tw.get("status") == "violation":  # the step violates an invariant even without any fault
+        p = copy.deepcopy(prog)
+        p["mode"] = "explicit"
+        p["steps"] = steps[:idx + 1]
+        return {"status": "violation", "violation": tw["violation"], "program": p, "phase": "twin"}
     if tw.get("status") != "ok":
         return {"status": "harness_error", "error": "twin failed: %r" % (tw, )}
     N = tw["nalloc"]
